@@ -161,7 +161,12 @@ def check_independencies(case):
 def check_minimal_dseparator(case):
     nodes, edges = case["nodes"], case["edges"]
     E = {tuple(e) for e in edges}
-    for latents in ([[]] + ([[v] for v in nodes] if len(nodes) <= 4 else [])):
+    lat_sets = [[]]
+    if len(nodes) <= 4:
+        lat_sets += [[v] for v in nodes] + [list(c) for c in itertools.combinations(nodes, 2)]
+    elif len(nodes) == 5:
+        lat_sets += [list(c) for c in itertools.combinations(nodes[:4], 3)][:2]  # chains of latent parents
+    for latents in lat_sets:
         g = _dag(case, latents)
         for x, y in itertools.combinations(nodes, 2):
             if x in latents or y in latents:
@@ -230,6 +235,6 @@ def groups(tier):
         Group("graph_views", gen_dags, check_graph_views, nontrivial, engine="E3", bound="same DAG enumeration; every node / node subsets of size <= 2"),
         Group("independencies", gen_dags, check_independencies, nontrivial, engine="E3", bound="all DAGs <= 4 nodes"),
         Group("minimal_dseparator", gen_dags, check_minimal_dseparator, nontrivial, engine="E3",
-              bound="same DAG enumeration; every node pair; latent subsets of size <= 1 (<= 4 nodes)"),
+              bound="same DAG enumeration; every node pair; latent subsets of size <= 2 (<= 4 nodes), two 3-subsets on 5 nodes"),
         Group("naive_bayes", gen_naive, check_naive_bayes, nontrivial, engine="E3", bound="NaiveBayes models with 1..3 features, multi-character names"),
     ]
